@@ -18,6 +18,7 @@ inductive Builtin where
   | strLen | strSub | strRep | strByte | strChar | strUpper | strLower | strReverse
   | mathType | mathTointeger | mathFloor | mathAbs | mathMax | mathMin
   | tblUnpack | tblPack | tblInsert | tblRemove | tblConcat
+  | coCreate | coResume | coYield | coWrap | coStatus | coClose | coIsyieldable | coRunning
   deriving DecidableEq, Repr, Inhabited
 
 inductive Val where
@@ -29,6 +30,10 @@ inductive Val where
   | table (addr : Nat)
   | func (addr : Nat)
   | builtin (b : Builtin)
+  /-- a coroutine (index into the store's coroutine table; 0 is the main thread) -/
+  | thread (co : Nat)
+  /-- the function returned by `coroutine.wrap` for that coroutine -/
+  | wrapfn (co : Nat)
   deriving DecidableEq, Inhabited
 
 namespace Val
@@ -46,6 +51,8 @@ def typeName : Val → String
   | table _ => "table"
   | func _ => "function"
   | builtin _ => "function"
+  | thread _ => "thread"
+  | wrapfn _ => "function"
 
 def ofString (s : String) : Val := .str s.toUTF8
 
@@ -117,6 +124,41 @@ structure Closure where
   env : List (String × Nat)
   deriving Inhabited
 
+/-! ### coroutines: re-execution with a log
+
+A suspended coroutine is not a captured continuation (the store cannot contain functions of the store) but a
+*script*: its body function, the arguments of its first resume, and the log of everything the body has observed so
+far — the result of every read of mutable state, every allocated address, the outcome of every nested resume and the
+values every `yield` returned.  Resuming it re-executes the body from the start in *replay mode*: reads are answered
+from the log, writes and events are skipped (they already happened), `yield` returns the logged values; when the log
+is exhausted execution is live again and continues to the next `yield`, `return` or error.  Evaluation is
+deterministic (Props.C01), so the replayed prefix follows exactly the path of the original execution. -/
+
+inductive CoStatus where
+  | suspended | running | normal | dead
+  deriving DecidableEq, Repr, Inhabited
+
+inductive LogEntry where
+  | val (v : Val)                 -- a cell was read
+  | tbl (t : Table)               -- a table was read
+  | addr (a : Nat)                -- something was allocated at address a
+  | status (st : CoStatus)        -- the status of a coroutine was read
+  | resumed (ok : Bool) (vs : List Val)   -- a nested resume / wrap call / close returned
+  | yieldRet (vs : List Val)      -- a yield returned these values (the arguments of the next resume)
+  | closeSignal                   -- the coroutine is being closed at this yield (coroutine.close)
+  deriving Inhabited
+
+structure CoState where
+  fn : Val
+  /-- arguments of the first resume (the body is always re-executed with them) -/
+  args : List Val
+  started : Bool
+  dead : Bool
+  /-- the error value it died with, if any -/
+  err : Option Val
+  log : List LogEntry
+  deriving Inhabited
+
 /-- the store: everything mutable -/
 structure Store where
   cells : Array Val
@@ -126,6 +168,14 @@ structure Store where
   trace : Array (List Val)
   /-- the tuple returned by the host callback `args()` -/
   input : List Val
+  /-- coroutines; index 0 stands for the main thread -/
+  cos : Array CoState := #[default]
+  /-- the coroutines being executed, innermost first (empty = the main thread is running) -/
+  costack : List Nat := []
+  /-- replay mode: log entries still to be consumed by the coroutine body being re-executed (empty = live) -/
+  replay : List LogEntry := []
+  /-- one recorder per running coroutine (parallel to `costack`): its log so far, newest entry first -/
+  recs : List (List LogEntry) := []
   deriving Inhabited
 
 inductive Err where
@@ -135,6 +185,12 @@ inductive Err where
   /-- the program left the fragment whose behaviour the manual determines / the model covers
       (tostring of a float, …): the run is discarded, not compared -/
   | unsupported (what : String)
+  /-- a coroutine body suspends with these values: travels up to the `resume` that runs it; not an error —
+      protected calls and to-be-closed scopes let it pass untouched -/
+  | yield (vs : List Val)
+  /-- a suspended coroutine is being closed: travels from its last `yield` up to `coroutine.close`, running the
+      pending to-be-closed variables on the way -/
+  | closing
   deriving Inhabited
 
 /-- evaluation monad: `none` = out of fuel (bottom), otherwise a result or an error together with
@@ -155,47 +211,165 @@ def tryLua {α} (x : M α) : M (Except (Val × Bool) α) :=
     | .error (.lua v h) => pure (.ok (.error (v, h)))
     | .error e => pure (.error e))
 
-/-! ### store primitives -/
+/-- how a to-be-closed scope can be left abnormally -/
+inductive TbcExit where
+  | lua (v : Val) (handled : Bool)
+  | closing
+
+/-- run `x`; reify a Lua error or the closing signal (what a to-be-closed scope reacts to) -/
+def tryTbc {α} (x : M α) : M (Except TbcExit α) :=
+  ExceptT.mk (do
+    let r ← x.run
+    match r with
+    | .ok a => pure (.ok (.ok a))
+    | .error (.lua v h) => pure (.ok (.error (.lua v h)))
+    | .error .closing => pure (.ok (.error .closing))
+    | .error e => pure (.error e))
+
+/-- how the body of a coroutine can stop running -/
+inductive CoExit where
+  | ret (vs : List Val)
+  | err (v : Val)
+  | yielded (vs : List Val)
+  | closed
+
+def tryCo (x : M (List Val)) : M CoExit :=
+  ExceptT.mk (do
+    let r ← x.run
+    match r with
+    | .ok vs => pure (.ok (.ret vs))
+    | .error (.lua v _) => pure (.ok (.err v))
+    | .error (.yield vs) => pure (.ok (.yielded vs))
+    | .error .closing => pure (.ok .closed)
+    | .error e => pure (.error e))
+
+/-! ### store primitives (log-aware) -/
+
+/-- append an entry to the log of the innermost running coroutine (nothing to do on the main thread) -/
+def Store.record (s : Store) (e : LogEntry) : Store :=
+  match s.recs with
+  | r :: rs => { s with recs := (e :: r) :: rs }
+  | [] => s
+
+def divergence {α} : M α := unsupported "replay divergence (internal)"
 
 def allocCell (v : Val) : M Nat := do
   let s ← get
-  set { s with cells := s.cells.push v }
-  pure s.cells.size
+  match s.replay with
+  | [] =>
+    set ({ s with cells := s.cells.push v }.record (.addr s.cells.size))
+    pure s.cells.size
+  | .addr a :: rest => do set { s with replay := rest }; pure a
+  | _ :: _ => divergence
 
 def readCell (i : Nat) : M Val := do
   let s ← get
-  pure (s.cells.getD i .nil)
+  match s.replay with
+  | [] =>
+    set (s.record (.val (s.cells.getD i .nil)))
+    pure (s.cells.getD i .nil)
+  | .val v :: rest => do set { s with replay := rest }; pure v
+  | _ :: _ => divergence
 
 def writeCell (i : Nat) (v : Val) : M Unit :=
-  modify fun s => { s with cells := s.cells.setIfInBounds i v }
+  modify fun s => if s.replay.isEmpty then { s with cells := s.cells.setIfInBounds i v } else s
 
 def allocTable (t : Table) : M Nat := do
   let s ← get
-  set { s with tables := s.tables.push t }
-  pure s.tables.size
+  match s.replay with
+  | [] =>
+    set ({ s with tables := s.tables.push t }.record (.addr s.tables.size))
+    pure s.tables.size
+  | .addr a :: rest => do set { s with replay := rest }; pure a
+  | _ :: _ => divergence
 
 def getTable (a : Nat) : M Table := do
   let s ← get
-  pure (s.tables.getD a Table.empty)
+  match s.replay with
+  | [] =>
+    set (s.record (.tbl (s.tables.getD a Table.empty)))
+    pure (s.tables.getD a Table.empty)
+  | .tbl t :: rest => do set { s with replay := rest }; pure t
+  | _ :: _ => divergence
 
 def putTable (a : Nat) (t : Table) : M Unit :=
-  modify fun s => { s with tables := s.tables.setIfInBounds a t }
+  modify fun s => if s.replay.isEmpty then { s with tables := s.tables.setIfInBounds a t } else s
 
 def allocClosure (c : Closure) : M Nat := do
   let s ← get
-  set { s with closures := s.closures.push c }
-  pure s.closures.size
+  match s.replay with
+  | [] =>
+    set ({ s with closures := s.closures.push c }.record (.addr s.closures.size))
+    pure s.closures.size
+  | .addr a :: rest => do set { s with replay := rest }; pure a
+  | _ :: _ => divergence
 
+/-- closures are immutable and never removed: no log needed -/
 def getClosure (a : Nat) : M Closure := do
   let s ← get
   pure (s.closures.getD a default)
 
 def emitEvent (vs : List Val) : M Unit :=
-  modify fun s => { s with trace := s.trace.push vs }
+  modify fun s => if s.replay.isEmpty then { s with trace := s.trace.push vs } else s
 
 def getInput : M (List Val) := do
   let s ← get
   pure s.input
+
+def allocCo (c : CoState) : M Nat := do
+  let s ← get
+  match s.replay with
+  | [] =>
+    set ({ s with cos := s.cos.push c }.record (.addr s.cos.size))
+    pure s.cos.size
+  | .addr a :: rest => do set { s with replay := rest }; pure a
+  | _ :: _ => divergence
+
+/-- status of a coroutine from the resume stack (§2.6): running = innermost, normal = resumed another one -/
+def Store.coStatus (s : Store) (co : Nat) : CoStatus :=
+  if s.costack.headD 0 = co then .running
+  else if co = 0 ∨ s.costack.contains co then .normal
+  else if (s.cos.getD co default).dead then .dead
+  else .suspended
+
+def readCoStatus (co : Nat) : M CoStatus := do
+  let s ← get
+  match s.replay with
+  | [] =>
+    set (s.record (.status (s.coStatus co)))
+    pure (s.coStatus co)
+  | .status st :: rest => do set { s with replay := rest }; pure st
+  | _ :: _ => divergence
+
+/-- the current store (coroutine bookkeeping reads it directly) -/
+def getS : M Store := get
+
+/-- in replay mode: take the next log entry -/
+def nextLog : M (Option LogEntry) := do
+  let s ← get
+  match s.replay with
+  | [] => pure none
+  | e :: rest => do set { s with replay := rest }; pure (some e)
+
+def recordM (e : LogEntry) : M Unit := modify fun s => s.record e
+
+def updCo (co : Nat) (f : CoState → CoState) : M Unit :=
+  modify fun s => { s with cos := s.cos.setIfInBounds co (f (s.cos.getD co default)) }
+
+/-- start (re-)executing coroutine `co` with the log `log` -/
+def coEnter (co : Nat) (c : CoState) (first : List Val) (log : List LogEntry) : M Unit :=
+  modify fun s =>
+    { s with cos := s.cos.setIfInBounds co { c with started := true, args := first },
+             costack := co :: s.costack, recs := log.reverse :: s.recs, replay := log }
+
+/-- stop executing coroutine `co`: its recorder becomes its log -/
+def coLeave (co : Nat) (upd : CoState → List LogEntry → CoState) : M Unit :=
+  modify fun s =>
+    { s with costack := s.costack.tail, recs := s.recs.tail, replay := [],
+             cos := s.cos.setIfInBounds co (upd (s.cos.getD co default) (s.recs.headD []).reverse) }
+
+def CoStatus.name : CoStatus → String
+  | .suspended => "suspended" | .running => "running" | .normal => "normal" | .dead => "dead"
 
 /-- dynamic context of an operation: the current lines of the active Lua functions, innermost first
     (0 = a host function's frame, which has no line), and the message handler installed by the
